@@ -61,16 +61,27 @@ def run_case(prop_id, case_dict, pins=None):
                                      if n.split(".")[0] == "btc_hd_wallet" and m is not None])
         fn = getattr(mod, case_dict["fn"])
         labels = {}
-        twins = {}
+        path_samples = []
 
         def body(c):
             E = SymEnv(c, case_dict["params"], pins)
             E.H = sxenv.SymOracle()
+            ret = None
             try:
-                return fn(E, R, **case_dict["params"])
+                ret = fn(E, R, **case_dict["params"])
+                return ret
             finally:
                 for k, v in E.labels.items():
                     labels[k] = labels.get(k, 0) + v
+                if len(path_samples) < 2 and not pins:
+                    try:
+                        m = c._model()
+                        if m is not None:
+                            ex = {k: (v if not isinstance(v, str) or len(v) <= 80 else v[:80] + "...") for k, v in c.model_inputs(m).items()}
+                            path_samples.append(dict(branch_decisions=len(c.trail), assertions_on_path=c.checks,
+                                                     an_input_on_this_path=ex, outcome=repr(ret)[:60]))
+                    except BaseException:
+                        pass
 
         res = core.explore(body, max_paths=case_dict.get("max_paths", 20000),
                            max_decisions=case_dict.get("max_decisions", 4000),
@@ -79,6 +90,7 @@ def run_case(prop_id, case_dict, pins=None):
         d = res.as_dict()
         out.update(d)
         out["labels"] = labels
+        out["path_samples"] = path_samples
         out["sources"] = {k: v[:3] for k, v in instrument.encoded_sources().items()}
         rets = [r for r in res.returns if r is not None]
         out["returns"] = _summ(rets)
@@ -349,7 +361,7 @@ def write_evidence(prop_id, mod, tier, seed, results, tv, real, seen_known, inco
     for r in sorted(results, key=lambda r: r.get("case", ""))[:6]:
         samples.append(dict(case=r.get("case"), params=r.get("params"), feasible_paths=r.get("feasible_paths"),
                             solver_queries=r.get("queries"), assertions=r.get("labels"),
-                            path_outcomes=r.get("returns")))
+                            path_outcomes=r.get("returns"), paths=r.get("path_samples")))
     for rec, path in real[:3]:
         samples.append(dict(violation=rec["label"], case=rec["case"], witness=rec["witness"], replay=path))
     states = sum(r.get("feasible_paths", 0) for r in results)
